@@ -123,3 +123,13 @@ def run(ctx):
         t1 = impl.ops_of(impl.plist([P]).transform_by(rm))[0]
         if t1 != G.rotate_op(Gop, P):
             ctx.fail('clifford_rotation_map', 'map built from a generator does not act as the rotation', dict(G=Gop, P=P, got=t1))
+        # ... and identically to the library's own rotation, on operators of every kind (commuting with overlap included)
+        Qs = [G.rand_op(rng, n) for _ in range(6)]
+        viamap = impl.ops_of(impl.plist(Qs).transform_by(rm))
+        viarot = impl.ops_of(impl.plist(Qs).rotate_by(impl.pauli(Gop)))
+        want = [G.rotate_op(Gop, Q) for Q in Qs]
+        for Q, a_, b_, w_ in zip(Qs, viamap, viarot, want):
+            ctx.case(('rotmap-vs-rotate', Gop, Q), any(c != 'I' for c in Q[0]), sample=dict(op='rotation map vs rotate_by', G=Gop, P=Q, result=a_))
+            if a_ != b_ or a_ != w_:
+                ctx.fail('clifford_rotation_map', 'the map built from a generator and the rotation itself act differently (map %s, rotation %s, conjugation %s)' % (a_, b_, w_),
+                         dict(G=Gop, P=Q))
